@@ -559,6 +559,7 @@ ASSUMPTIONS = [
 MANIFEST = {"technique": "Lean 4 proofs over definitions regenerated from the repo's formula table and code templates "
                          "(translator) + Float twin differential correspondence"}
 
+LOOP_AST_SHA1 = "93fecf35eb15520121969fb0560df4c61667d224"      # ast.dump of the body of _generate_window_strategies
 TOL = Fraction(1, 10 ** 12)
 # symmetry of the trigonometric windows on floats: cos(2 pi n / N) against cos(2 pi (N - n) / N) — the two arguments are
 # rounded separately, the samples differ by a few units in the last place (largest seen for sizes up to 4096: 7.8e-16)
@@ -2039,14 +2040,15 @@ def tally(eng, c, io):
     if c["entry"] == "scan":
         eng.count("scan_strategy", "%s.%s" % (c["dict"], c["name"]))
         eng.count("scan_alpha", "default" if c.get("alpha") is None else "given")
-        eng.count("scan_sizes", io.get("sizes", 0))
-        eng.count("scan_samples", io.get("samples", 0))
-        eng.count("scan_samples_outside_[0,1]", io.get("nbelow0", 0) + io.get("nabove1", 0))
+        eng.count("scan_totals", "sizes", io.get("sizes", 0))
+        eng.count("scan_totals", "samples", io.get("samples", 0))
+        eng.count("scan_totals", "samples outside [0,1] (exact comparison)", io.get("nbelow0", 0) + io.get("nabove1", 0))
+        eng.count("scan_largest_size", c["hi"] - 1)
         if c["dict"] == "wsymm" or c["name"] == "rect":
             m = dec(io["asym_max"]) if "asym_max" in io else 0
             eng.count("scan_float_symmetry(%s)" % c["name"], "bit-exact for every size" if m == 0 else
                       "largest |w[i]-w[size-1-i]| <= 1e-15" if m <= Fraction(1, 10 ** 15) else "larger")
-            eng.count("scan_sizes_not_bit_symmetric", io.get("asym_sizes", 0))
+            eng.count("scan_totals", "sizes of %s whose list is not a palindrome bit for bit" % c["name"], io.get("asym_sizes", 0))
         return
     if c["entry"] == "pycall":
         sc = _spec_call(c)
@@ -2355,6 +2357,50 @@ def extra_checks(eng):
     chk("strategy count", len(window) == len({tuple(v) for _k, v in reg["window"]["items"]}) and
         len(wsymm) == len({tuple(v) for _k, v in reg["wsymm"]["items"]}),
         "impl %d/%d" % (len(window), len(wsymm)))
+    # the regenerated tables against the running module: parameter list of every generated function, dictionary links
+    try:
+        import inspect
+        tab = eng.driver.batch([{"id": ID, "entry": "tables"}])[0]["ok"]
+        bad = []
+        for row in tab["rows"]:
+            sname = row["names"][0]
+            for dn, sd in sds.items():
+                want = row["window_sig" if (dn == "window" or not row["distinct"]) else "wsymm_sig"]
+                try:
+                    ps = list(inspect.signature(sd[sname]).parameters.values())
+                except (KeyError, ValueError, TypeError) as e:
+                    bad.append("%s.%s: %r" % (dn, sname, e))
+                    continue
+                got = []
+                for q in ps:
+                    if q.kind is not q.POSITIONAL_OR_KEYWORD:
+                        got.append([q.name, "kind:" + str(q.kind)])
+                    elif q.default is q.empty:
+                        got.append([q.name, None])
+                    elif type(q.default) in (int, float):
+                        f = Fraction(repr(q.default))
+                        got.append([q.name, [f.numerator, f.denominator, type(q.default) is int]])
+                    else:
+                        got.append([q.name, "default:" + repr(q.default)])
+                if got != want:
+                    bad.append("%s.%s%s, model %s" % (dn, sname, got, want))
+        chk("signature of every generated function = regenerated table (theorem `signatures`)", not bad, "; ".join(bad)[:400])
+        bad = [l for l in tab["dict_links"] if getattr(sds.get(l[0]), l[1], None) is not sds.get(l[2])]
+        chk("dictionary links = regenerated table (theorem `dict_links_table`)", not bad and len(tab["dict_links"]) == 4, str(bad))
+    except Exception as e:
+        chk("regenerated tables readable", False, "%s: %s" % (type(e).__name__, e))
+    # the hand-written model `genStep` / `generated` is a model of THIS text of `_generate_window_strategies`
+    try:
+        import hashlib
+        read_source()
+        loop = _src.get("loop")
+        body = [n for n in loop.body if not (isinstance(n, ast.Expr) and isinstance(n.value, ast.Constant)
+                                             and isinstance(n.value.value, str))] if loop is not None else None
+        h = hashlib.sha1(ast.dump(ast.Module(body, [])).encode()).hexdigest() if body is not None else "missing"
+        chk("_generate_window_strategies is the text the hand-written model (ALV.C14.genStep) was written for", h == LOOP_AST_SHA1,
+            "sha1 of the AST %s, modelled %s: re-read the loop, update lean/ALV/Model/C14.lean and LOOP_AST_SHA1" % (h, LOOP_AST_SHA1))
+    except Exception as e:
+        chk("_generate_window_strategies readable", False, "%s: %s" % (type(e).__name__, e))
     # the translator read the same table / templates the running module uses
     try:
         entries, templates = read_source()
